@@ -25,8 +25,8 @@ type BCase struct {
 
 type BFact struct {
 	Pred string `json:"pred"`
-	Arg  any    `json:"arg"`  // value in the "cn" name encoding
-	OK   bool   `json:"ok"`   // builtin.TypeChecker.CheckTypeBounds accepted the fact
+	Arg  any    `json:"arg"` // value in the "cn" name encoding
+	OK   bool   `json:"ok"`  // builtin.TypeChecker.CheckTypeBounds accepted the fact
 	Err  string `json:"err,omitempty"`
 }
 
